@@ -4,7 +4,9 @@ import vlib
 from props import arbgen, arbprop, C05
 
 PROP = "C16"
-PROPS_FILES = ["Nic/Props/C16.lean"]
+PROPS_FILES = ["Nic/Props/C16.lean", "Nic/Props/TieClass.lean"]
+# Go functions translated from /repo on every run (tools/gofn) and proved equal to the model in the Tie file above
+TIE_FUNCS = ['internal/k8s/controller.go:LoadBalancerController.HasCorrectIngressClass']
 HARNESS = "vh-k8s"
 RULE = ("(a) class predicate: exhaustive over kind {Ingress, VirtualServer, VirtualServerRoute, TransportServer, Policy, other} x annotation "
         "{absent, empty, ours, foreign} x field {absent, empty, ours, foreign}, real HasCorrectIngressClass vs the Lean decision table. "
